@@ -12,7 +12,7 @@ def Clean (o : Out) : Prop := o.err = some .merge ∨ (o.err = none ∧ o.warns 
 theorem clean_fail (cs : List Xml) : Clean (failWith cs [] .merge) := Or.inl rfl
 theorem clean_ok (cs : List Xml) : Clean ⟨cs, [], none⟩ := Or.inr ⟨rfl, rfl⟩
 
-theorem collectSources_ok (tag : String) (cs : List Xml) (target : Option Nat) (hw : WfKids tag cs = true) :
+theorem collectSources_ok (tag : String) (cs : List Xml) (target : Option Nat) :
     ∀ (ids : List Key) (acc : List Nat),
       collectSources tag none cs target ids acc = .error .merge ∨
       ∃ l, collectSources tag none cs target ids acc = .ok l := by
@@ -22,7 +22,7 @@ theorem collectSources_ok (tag : String) (cs : List Xml) (target : Option Nat) (
   | cons id ids ih =>
     intro acc
     unfold collectSources
-    rw [findChildId_ok tag cs id hw]
+    rw [findChildId_ok tag cs id]
     cases locate tag cs id with
     | none => left; rfl
     | some i =>
@@ -31,14 +31,14 @@ theorem collectSources_ok (tag : String) (cs : List Xml) (target : Option Nat) (
       · left; rfl
       · exact ih _
 
-theorem clean_moveMany (tag : String) (cs : List Xml) (t : Key) (ss : List Key) (hw : WfKids tag cs = true) :
+theorem clean_moveMany (tag : String) (cs : List Xml) (t : Key) (ss : List Key) :
     Clean (moveMany tag none cs t ss) := by
   unfold moveMany
-  rw [findTarget_ok tag none cs t hw]
+  rw [findTarget_ok tag none cs t]
   cases t with
   | none =>
     simp only
-    rcases collectSources_ok tag cs none hw ss [] with h | ⟨l, h⟩ <;> rw [h]
+    rcases collectSources_ok tag cs none ss [] with h | ⟨l, h⟩ <;> rw [h]
     · exact clean_fail _
     · exact clean_ok _
   | some k =>
@@ -47,16 +47,16 @@ theorem clean_moveMany (tag : String) (cs : List Xml) (t : Key) (ss : List Key) 
     | none => exact clean_fail _
     | some i =>
       simp only
-      rcases collectSources_ok tag cs (some i) hw ss [] with h | ⟨l, h⟩ <;> rw [h]
+      rcases collectSources_ok tag cs (some i) ss [] with h | ⟨l, h⟩ <;> rw [h]
       · exact clean_fail _
       · exact clean_ok _
 
-theorem clean_swapTwo (tag : String) (cs : List Xml) (ids : List Key) (hw : WfKids tag cs = true)
+theorem clean_swapTwo (tag : String) (cs : List Xml) (ids : List Key)
     (hl : ids.length = 2) : Clean (swapTwo tag none cs ids) := by
   match ids, hl with
   | [a, b], _ =>
     simp only [swapTwo, unpack2]
-    rw [findRequired_ok tag none cs a hw, findRequired_ok tag none cs b hw]
+    rw [findRequired_ok tag none cs a, findRequired_ok tag none cs b]
     cases locate tag cs a with
     | none => exact clean_fail _
     | some i =>
@@ -65,9 +65,9 @@ theorem clean_swapTwo (tag : String) (cs : List Xml) (ids : List Key) (hw : WfKi
       | none => exact clean_fail _
       | some j => exact clean_ok _
 
-theorem clean_inStory (cs : List Xml) (sid : Key) (f : List Xml → Out) (hw : WfKids "story" cs = true)
+theorem clean_inStory (cs : List Xml) (sid : Key) (f : List Xml → Out)
     (hf : ∀ s ∈ cs, s.tag = "story" → Clean (f s.kids)) : Clean (inStory none cs sid f) := by
-  rw [inStory_ok cs sid f hw]
+  rw [inStory_ok cs sid f]
   cases hl : locate "story" cs sid with
   | none => exact clean_fail _
   | some j =>
@@ -80,12 +80,11 @@ theorem clean_inStory (cs : List Xml) (sid : Key) (f : List Xml → Out) (hw : W
     · left; exact h
     · right; exact ⟨h1, h2⟩
 
-theorem clean_replace (tag : String) (items : List Xml) (id : Key) (xs : List Xml)
-    (hw : WfKids tag items = true) :
+theorem clean_replace (tag : String) (items : List Xml) (id : Key) (xs : List Xml) :
     Clean (match findRequired tag none items id with
       | .error e => failWith items [] e
       | .ok i => ⟨replaceAt items i xs, [], none⟩) := by
-  rw [findRequired_ok tag none items id hw]
+  rw [findRequired_ok tag none items id]
   cases locate tag items id with
   | none => exact clean_fail _
   | some i => exact clean_ok _
@@ -126,14 +125,14 @@ theorem swap_len (src : Option Xml) (t : String)
   | none => simp at h
   | some s => simpa [idTexts] using h
 
-theorem clean_storyMove (cs : List Xml) (sid tid : Key) (hws : WfKids "story" cs = true) :
+theorem clean_storyMove (cs : List Xml) (sid tid : Key) :
     Clean (match findTarget "story" none cs tid with
       | .error e => failWith cs [] e
       | .ok target =>
         match findRequired "story" none cs sid with
         | .error e => failWith cs [] e
         | .ok s => if target == some s then ⟨cs, [], none⟩ else ⟨moveNodes cs [s] target, [], none⟩) := by
-  rw [findTarget_ok "story" none cs _ hws, findRequired_ok "story" none cs sid hws]
+  rw [findTarget_ok "story" none cs _, findRequired_ok "story" none cs sid]
   cases tid with
   | none =>
     simp only
@@ -150,8 +149,7 @@ theorem clean_storyMove (cs : List Xml) (sid tid : Key) (hws : WfKids "story" cs
       | none => exact clean_fail _
       | some s => simp only; split <;> exact clean_ok _
 
-theorem clean_mergeRc (k : Kind) (rc base : Xml) (hws : WfKids "story" rc.kids = true)
-    (hwi : ∀ s ∈ rc.kids, s.tag = "story" → WfKids "item" s.kids = true)
+theorem clean_mergeRc (k : Kind) (rc base : Xml)
     (hsh : shapedBase k base = true) (hk : k.isQuiet = true) : Clean (mergeRc k rc base none) := by
   cases k <;> (try exact absurd hk (by decide)) <;> simp only [mergeRc]
   case MetaDataReplace => exact clean_ok _
@@ -163,11 +161,11 @@ theorem clean_mergeRc (k : Kind) (rc base : Xml) (hws : WfKids "story" rc.kids =
   case StoryMove =>
     split
     · exact clean_fail _
-    · exact clean_storyMove _ _ _ hws
+    · exact clean_storyMove _ _ _
   case ItemMoveMultiple =>
     split
     · exact clean_fail _
-    · apply clean_inStory _ _ _ hws
+    · apply clean_inStory _ _ _
       intro s hs ht
       have hne : (idTexts base "itemID").getLast? ≠ none := by
         simp only [shapedBase] at hsh
@@ -175,9 +173,9 @@ theorem clean_mergeRc (k : Kind) (rc base : Xml) (hws : WfKids "story" rc.kids =
         intro h; rw [h] at hsh; simp at hsh
       split
       · rename_i h; exact absurd h hne
-      · exact clean_moveMany _ _ _ _ (hwi s hs ht)
+      · exact clean_moveMany _ _ _ _
   case StoryReplace =>
-    rw [findRequired_ok "story" none rc.kids _ hws]
+    rw [findRequired_ok "story" none rc.kids _]
     cases locate "story" rc.kids (elemId (some base) "storyID") with
     | none => exact clean_fail _
     | some i =>
@@ -186,23 +184,23 @@ theorem clean_mergeRc (k : Kind) (rc base : Xml) (hws : WfKids "story" rc.kids =
       · exact clean_fail _
       · exact clean_ok _
   case ItemReplace =>
-    apply clean_inStory _ _ _ hws
+    apply clean_inStory _ _ _
     intro s hs ht
-    exact clean_replace _ _ _ _ (hwi s hs ht)
-  case EAStoryReplace => exact clean_replace _ _ _ _ hws
+    exact clean_replace _ _ _ _
+  case EAStoryReplace => exact clean_replace _ _ _ _
   case EAItemReplace =>
-    apply clean_inStory _ _ _ hws
+    apply clean_inStory _ _ _
     intro s hs ht
-    exact clean_replace _ _ _ _ (hwi s hs ht)
-  case EAStorySwap => exact clean_swapTwo _ _ _ hws (swap_len _ _ hsh)
+    exact clean_replace _ _ _ _
+  case EAStorySwap => exact clean_swapTwo _ _ _ (swap_len _ _ hsh)
   case EAItemSwap =>
-    apply clean_inStory _ _ _ hws
+    apply clean_inStory _ _ _
     intro s hs ht
-    exact clean_swapTwo _ _ _ (hwi s hs ht) (swap_len _ _ hsh)
-  case EAStoryMove => exact clean_moveMany _ _ _ _ hws
+    exact clean_swapTwo _ _ _ (swap_len _ _ hsh)
+  case EAStoryMove => exact clean_moveMany _ _ _ _
   case EAItemMove =>
-    apply clean_inStory _ _ _ hws
+    apply clean_inStory _ _ _
     intro s hs ht
-    exact clean_moveMany _ _ _ _ (hwi s hs ht)
+    exact clean_moveMany _ _ _ _
 
 end Mrm
